@@ -332,6 +332,10 @@ class JsonSchemaParser:
             elif items:
                 addition = self.parse_type(items, with_constraints=True)
 
+        elif items is False:
+            # no item is allowed at all: only the empty array
+            constraints = dict(constraints or {}, length=0)
+
         elif items:
             items_type = self.parse_type(items, with_constraints=True)
             args = [items_type]
